@@ -597,8 +597,16 @@ func c40seqStorage(run *mon.Run, ops []c40seqOp, queries []int64, judgeEvery boo
 	return true, classes
 }
 
+// c40seqChainUnusable is set when a call into the Chain panicked: Chain.GetMagicBlock takes its read lock without a deferred unlock, so
+// after a recovered panic the next SetMagicBlock would block forever. The finding is recorded; the remaining chain sequences are skipped.
+var c40seqChainUnusable bool
+
 // c40seqChain replays ops on the real Chain (fresh magic-block storage) and on the model.
 func c40seqChain(run *mon.Run, c *chain.Chain, ops []c40seqOp, queries []int64, judgeEvery bool) string {
+	if c40seqChainUnusable {
+		run.Count("seq_chain_sequences_skipped_after_panic", 1)
+		return ",skipped"
+	}
 	c.MagicBlockStorage = round.NewRoundStartingStorage()
 	m := c40seqNewModel()
 	classes := ""
@@ -611,6 +619,8 @@ func c40seqChain(run *mon.Run, c *chain.Chain, ops []c40seqOp, queries []int64, 
 			defer func() {
 				if r := recover(); r != nil {
 					violate(run, "C40:chain-call-panics", fmt.Sprintf("[%s]: the last operation panicked: %v", c40seqString(cur), r), map[string]interface{}{"level": "chain", "ops": cur})
+					c40seqChainUnusable = true
+					run.Checkpoint()
 				}
 			}()
 			switch o.Kind {
@@ -633,6 +643,9 @@ func c40seqChain(run *mon.Run, c *chain.Chain, ops []c40seqOp, queries []int64, 
 			}
 		}()
 		classes += "," + class
+		if c40seqChainUnusable {
+			return classes
+		}
 		if !(judgeEvery || last) || len(m.ent) == 0 {
 			continue
 		}
@@ -650,8 +663,13 @@ func c40seqChain(run *mon.Run, c *chain.Chain, ops []c40seqOp, queries []int64, 
 					violate(run, "C40:lookup-panics", fmt.Sprintf("after [%s]: Chain.%s(%d) panicked with stored starts %v: %v", c40seqString(cur), name, q, sorted, r),
 						map[string]interface{}{"level": "chain", "ops": cur, "query": q, "call": name})
 					mb, ok = nil, false
+					c40seqChainUnusable = true
+					run.Checkpoint()
 				}
 			}()
+			if c40seqChainUnusable {
+				return nil, false
+			}
 			return f(), true
 		}
 		run.Count("seq_chain_latest", 1)
@@ -712,21 +730,21 @@ func c40seqRun(run *mon.Run, rnd *mon.Rand, c *chain.Chain, thorough bool) {
 	}
 	enumerate := func(alpha []c40seqOp, f func(ops []c40seqOp)) {
 		ops := make([]c40seqOp, 0, maxLen)
-		var rec func()
-		rec = func() {
-			if len(ops) > 0 {
+		var rec func(length int)
+		rec = func(length int) {
+			if len(ops) == length {
 				f(ops)
-			}
-			if len(ops) == maxLen {
 				return
 			}
 			for _, o := range alpha {
 				ops = append(ops, o)
-				rec()
+				rec(length)
 				ops = ops[:len(ops)-1]
 			}
 		}
-		rec()
+		for length := 1; length <= maxLen; length++ { // shortest first: the first witness of a finding is a shortest one
+			rec(length)
+		}
 	}
 	nSt, nCh := 0, 0
 	enumerate(stAlpha, func(ops []c40seqOp) {
